@@ -290,6 +290,9 @@ func init() {
 		for _, sz := range []int{1, 2, 5} {
 			it = append(it, Item{PkgKey: "root", Func: "VerifC07_ProprietaryTwice", Shape: []int{sz}})
 		}
+		for _, sz := range [][]int{{3, 1}, {1, 2}, {0, 2}} {
+			it = append(it, Item{PkgKey: "root", Func: "VerifC07_ProprietaryHistory", Shape: sz})
+		}
 		return it
 	}
 }
@@ -708,6 +711,13 @@ func init() {
 					it = append(it, Item{PkgKey: "root", Func: "VerifC10_GuardFRM", Shape: []int{n, spare}})
 					if n <= 15 {
 						it = append(it, Item{PkgKey: "root", Func: "VerifC10_GuardFOpts", Shape: []int{n, spare}})
+					}
+				}
+			}
+			for mt := 0; mt < 2; mt++ {
+				for _, n1 := range pick(tier, []int{0, 1, 5}, []int{0, 1, 2, 5, 14}) {
+					for _, n2 := range pick(tier, []int{0, 3}, []int{0, 1, 3, 16, 17}) {
+						it = append(it, Item{PkgKey: "root", Func: "VerifC10_GuardMarshal", Shape: []int{mt, n1, n2}})
 					}
 				}
 			}
